@@ -30,7 +30,7 @@ OUTSIDE = ['complex-valued operators (ComplexModulus etc.: derivative in the R^2
            'non-differentiable points', 'LinDeformFixedTempl/Disp (exempt by the property)',
            'the finite-h rate of a central difference (the exact derivative is decided instead)']
 ASSUMPTIONS = ['calculus rules of sqrt/exp/log/sin/cos/pow on dual numbers (trusted base of the AD)', 'paths selected only by an exact tie of a dual-number value (== shortcuts such as scalar == 0, and kinks of abs/max/sign) are measure-zero and excluded']
-SETTINGS = {'max_paths': 200, 'tol': (1e-9, 2), 'obligation_timeout_ms': 20000, 'conc_rtol': 2e-4}
+SETTINGS = {'strict_definedness': False, 'max_paths': 200, 'tol': (1e-9, 2), 'obligation_timeout_ms': 20000, 'conc_rtol': 2e-4}
 CFG_TIMEOUT = {'quick': 240, 'thorough': 900}
 
 
